@@ -258,6 +258,9 @@ class Outcome:
         if len(seen) > 25:
             lines.append(f"... {len(seen) - 25} more violations "
                          f"(see evidence and {REPLAYS})")
+        if os.environ.get("PV_DUMP"):      # development aid: all failing cases
+            with open(os.environ["PV_DUMP"], "w") as fp:
+                json.dump(self.violations, fp, default=str)
         ev["coverage"].setdefault("samples", [])
         if self.violations:
             ev["coverage"]["violating_samples"] = self.violations[:5]
